@@ -1145,6 +1145,32 @@ func runGROWSHRINK(c *Ctx) {
 			if kind == "" {
 				if h := predicate(cond); h != nil && measuresKeys(c, h, 0) {
 					kind = "the key test"
+					// the key test answers "no key of the root belongs above the height" only after it has looked at
+					// every key: a `false` handed back on any other condition (a root with a single entry "cannot be
+					// spread over two levels") keeps a tree lower than its contents require
+					hei := ir.ErrorResultIndex(h.Signature)
+					for _, r := range ir.Returns(h) {
+						if hei >= 0 && hei < len(r.Results) && !ir.IsNilConst(r.Results[hei]) {
+							continue
+						}
+						if v, isC := ir.ConstBool(ir.ResolveCell(r.Results[0])); !isC || v {
+							continue
+						}
+						done := ir.FlowFact(r, func(fc ir.Fact) bool {
+							bin, ok := fc.Cond.(*ssa.BinOp)
+							if !ok || bin.Op != token.LSS || fc.Truth {
+								return false
+							}
+							_, _, isLen := lenOfNodeSlice(bin.Y)
+							return isLen
+						}, func(ssa.Instruction) bool { return false })
+						if done {
+							c.OK(P.InstrPos(r), "'no growth' answer of "+ir.FuncName(h), "given only after the loop over the root's keys has run to its end", false)
+						} else {
+							c.Violation(h, P.InstrPos(r), "growth test answers 'no' without having looked at every key",
+								"the growth test returns false on a path that does not come out of the loop over the root's keys: a key that belongs above the current height is overlooked, the tree stays lower than the same entries inserted afresh, and equal contents persist under different roots")
+						}
+					}
 				}
 			}
 			pos := P.InstrPos(f.From.Instrs[len(f.From.Instrs)-1])
